@@ -7,7 +7,11 @@ package main
 // literal into a helper therefore does not change what a rule sees.
 
 import (
+	"fmt"
+	"go/types"
+	"sort"
 	"strconv"
+	"strings"
 
 	"golang.org/x/tools/go/ssa"
 )
@@ -211,3 +215,42 @@ func storeFieldName(fa *ssa.FieldAddr) string {
 }
 
 var _ = strconv.Itoa
+
+// copyOmissions: struct literals of type typ (a *types.Named rendered as pkg.Name) that are visibly a
+// field-by-field copy of ANOTHER value of the same type (at least two fields are field[F](X) of one
+// source X stored under the same name F) but leave some of the type's fields out. Those fields are
+// zero in the copy. Returns one description per such literal.
+func copyOmissions(fs []*ssa.Function, typ string, st *types.Struct) []string {
+	var out []string
+	for _, f := range fs {
+		v := &famView{root: f, fns: []*ssa.Function{f}, tb: map[*ssa.Function]*TermBuilder{f: newTB(f)}}
+		for _, lit := range v.structLits(typ) {
+			src := map[string]int{}
+			for name, t := range lit.Fields {
+				if t.Op == "field" && t.Name == name && len(t.Args) == 1 {
+					src[t.Args[0].String()]++
+				}
+			}
+			best, n := "", 0
+			for s, k := range src {
+				if k > n {
+					best, n = s, k
+				}
+			}
+			if n < 2 {
+				continue
+			}
+			var missing []string
+			for i := 0; i < st.NumFields(); i++ {
+				if _, ok := lit.Fields[st.Field(i).Name()]; !ok {
+					missing = append(missing, st.Field(i).Name())
+				}
+			}
+			if len(missing) > 0 {
+				out = append(out, fmt.Sprintf("%s builds a %s as a field-by-field copy of %s (at %s) but leaves out %s: those fields are zero in the copy", fname(f), typ, short(best), currentWorld.pos(lit.At.Pos()), strings.Join(missing, ", ")))
+			}
+		}
+	}
+	sort.Strings(out)
+	return out
+}
